@@ -35,6 +35,8 @@
  *                                datagram that is answered, or =none)
  *   S<ca0>,<ca1>,<ca2>,<ca3>     coap_check_notify_lkd() is entered; con_active of the session of
  *                                each observer ('-': no session)                      (wrapped)
+ *   U<c>:<mid>                   coap_retransmit() is called for a message that has no retransmission
+ *                                left: it is given up                                 (wrapped)
  *   F<c>:<tok>:<mid>             coap_handle_failed_notify(session of c, token) for the node with
  *                                this mid that coap_retransmit gave up                (wrapped)
  *   Z<ca0>,..                    con_active of the sessions when coap_delete_resource is called
@@ -142,6 +144,10 @@ coap_mid_t __wrap_coap_retransmit(coap_context_t *context, coap_queue_t *node) {
   long o = retx_mid;
   coap_mid_t m;
   retx_mid = node ? (long)(uint16_t)node->id : -1;
+  /* this call gives the message up (no retransmission left): reported whatever the library then
+   * does about its observer */
+  if (node && context == srv && node->retransmit_cnt >= node->session->max_retransmit)
+    printf(" U%d:%ld", peer_of_addr(&node->session->addr_info.remote), retx_mid);
   m = __real_coap_retransmit(context, node);
   retx_mid = o;
   return m;
